@@ -31,9 +31,16 @@ def key_of(p):
     return (API_VERSION, kind_of(p)[1], ns_of(p), NAME)
 
 
+def parent_ns(p):
+    """namespace of the parent (the `owner` argument of a pass): `NS` unless the program says otherwise;
+    `None` = a cluster-scoped parent, any other string = a parent living in another namespace"""
+    return p["parentNs"] if "parentNs" in p else NS
+
+
 def owned_eff(p) -> bool:
-    """`own_resource and owner_namespace == namespace`: a namespaced parent never owns a cluster-scoped object"""
-    return bool(p["owned"]) and namespaced(p)
+    """`own_resource and owner_namespace == namespace`: a namespaced parent never owns a cluster-scoped object
+    (nor one in another namespace); a cluster-scoped parent owns a cluster-scoped object (None == None)"""
+    return bool(p["owned"]) and parent_ns(p) == ns_of(p)
 LA = g.LA_ANNOTATION
 
 # strings that survive the literal -> CEL encoder whatever becomes of F2 (no numerals, quotes, backslashes)
@@ -229,16 +236,18 @@ def gen_program(r, nulls=False, policy=None):
     # input-driven leaves (inline base and overlays only: a template is static)
     inputs = {"name": NAME}
     exprs = 0
+    planted = {}          # input name -> path of the leaf it drives inside T (base and overlays keep T's paths)
 
-    def plant(v, allow):
+    def plant(v, allow, path=()):
         nonlocal exprs
         if isinstance(v, dict):
-            return {k: (x if k in g.DIRECTIVES else plant(x, allow)) for k, x in v.items()}
+            return {k: (x if k in g.DIRECTIVES else plant(x, allow, path + (k,))) for k, x in v.items()}
         if isinstance(v, list):
-            return [plant(x, allow) for x in v]
+            return [plant(x, allow, path + (i,)) for i, x in enumerate(v)]
         if allow and v is not None and not isinstance(v, float) and exprs < 3 and r.random() < 0.1:
             exprs += 1
             inputs[f"v{exprs}"] = v
+            planted[f"v{exprs}"] = list(path)
             return f"=inputs.v{exprs}"
         return v
 
@@ -282,9 +291,105 @@ def gen_program(r, nulls=False, policy=None):
             spec_overlays.append({"overlay": {"kind": "Gadget"}})
         else:
             spec_overlays.append({"overlay": {"apiVersion": "other.dev/v9"}})
-    return {"namespaced": is_namespaced, "createEnabled": create_enabled, "T": T, "base": spec_base, "overlays": spec_overlays, "template": use_template, "policy": pol,
-            "delay": delay, "createDelay": cdelay, "createOverlay": create_overlay, "contradicts": contradicts,
-            "owned": owned, "inputs": inputs}
+    out = {"namespaced": is_namespaced, "createEnabled": create_enabled, "T": T, "base": spec_base, "overlays": spec_overlays, "template": use_template, "policy": pol,
+           "delay": delay, "createDelay": cdelay, "createOverlay": create_overlay, "contradicts": contradicts,
+           "owned": owned, "inputs": inputs, "planted": planted}
+    # where the parent lives (drawn last: everything above keeps its stream).  A cluster-scoped kind is mostly
+    # managed for a cluster-scoped parent (owner = (None, ref): owned when `owned`), a namespaced one
+    # sometimes for a cluster-scoped parent or for a parent in another namespace (never owned by koreo's rule)
+    c = r.random()
+    if not is_namespaced:
+        if c < 0.65:
+            out["parentNs"] = None
+    elif c < 0.08:
+        out["parentNs"] = None
+    elif c < 0.16:
+        out["parentNs"] = "ns-of-the-parent"
+    return out
+
+
+def _under_la(t, path) -> bool:
+    """the path passes through a key its map lists in x-koreo-compare-last-applied"""
+    cur = t
+    for e in path:
+        if isinstance(cur, dict):
+            if e in g.spec_dirs(cur)[1]:
+                return True
+        try:
+            cur = cur[e]
+        except (KeyError, IndexError, TypeError):
+            return False
+    return False
+
+
+def _set_path(v, path, new):
+    cur = v
+    for e in path[:-1]:
+        cur = cur[e]
+    cur[path[-1]] = new
+
+
+def _get_path(v, path):
+    for e in path:
+        v = v[e]
+    return v
+
+
+def add_input_subtree(r, p, la=True):
+    """the same program with one more overlay step that adds a top-level map holding an input-driven scalar
+    leaf — listed in the map's x-koreo-compare-last-applied when `la` — (template or inline alike: overlays may
+    always use inputs).  Returns p itself when no top-level name is free."""
+    free = sorted(k for k in SAFE_OVERLAY_KEYS if k not in p["T"])
+    if not free:
+        return p
+    top = r.choice(free)
+    sub = _retarget_strings(r, g.gen_dict(r, 1, False, max_keys=2))
+    leaf = r.choice([k for k in g.KEYS if k not in sub])
+    val = r.choice(["a", "b", "first", 0, 7, 443, True, False])
+    sub[leaf] = val
+    if la:
+        sub[g.LAST_APPLIED] = [x for x in (sub.get(g.LAST_APPLIED) or []) if x != leaf] + [leaf]
+    n = 1 + sum(1 for k in p["inputs"] if k.startswith("w"))
+    name = f"w{n}"
+    q = copy.deepcopy(p)
+    q["T"][top] = copy.deepcopy(sub)
+    spec_sub = copy.deepcopy(sub)
+    spec_sub[leaf] = f"=inputs.{name}"
+    q["overlays"] = [{"overlay": {top: spec_sub}}] + q["overlays"]
+    q["inputs"][name] = val
+    q.setdefault("planted", {})[name] = [top, leaf]
+    return q
+
+
+def vary_inputs(r, p, prefer_la=0.75):
+    """the same function with one input-driven leaf given another value of its type: (program, path) or None.
+    Prefers a leaf below a last-applied-directed key.  Leaves under `metadata` stay (identity overlays copy it)."""
+    cands = [(n, path) for n, path in (p.get("planted") or {}).items()
+             if path and path[0] != "metadata" and n in p["inputs"]]
+    if not cands:
+        return None
+    la_c = [c for c in cands if _under_la(p["T"], c[1])]
+    name, path = r.choice(la_c) if la_c and r.random() < prefer_la else r.choice(cands)
+    old = p["inputs"][name]
+    if isinstance(old, bool):
+        new = not old
+    elif isinstance(old, int):
+        new = r.choice([x for x in (0, 1, 2, 7, 80, 443, 2 ** 40) if x != old])
+    elif isinstance(old, str):
+        new = r.choice([x for x in ("a", "b", "second", " a ", "x$y", "é", "long-ish value", "") if x != old])
+    else:
+        return None
+    q = copy.deepcopy(p)
+    try:
+        if cn(_get_path(q["T"], path)) != cn(old):
+            return None
+        _set_path(q["T"], path, new)
+    except (KeyError, IndexError, TypeError):
+        return None
+    if g.wf(p["T"]) and not g.wf(q["T"]):      # e.g. two keyed members with one key: not a target of the domain
+        return None
+    q["inputs"][name] = new
+    return q, path
 
 
 def program_spec(p) -> tuple[dict, dict | None]:
@@ -395,7 +500,10 @@ def pass_req(p, live):
     import koreo_util as ku
 
     return {"op": "pass",
-            "cfg": {"policy": policy_of(p), "shouldOwn": owned_eff(p), "ownerRef": to_wire(ku.OWNER_REF),
+            # the model decides `shouldOwn` itself (`shouldOwnOf`) from these three; the harness's own
+            # `owned_eff` is used by the oracle and by `create_view`
+            "cfg": {"policy": policy_of(p), "own": bool(p["owned"]), "parentNs": parent_ns(p), "ns": ns_of(p),
+                    "ownerRef": to_wire(ku.OWNER_REF),
                     "createEnabled": bool(p.get("createEnabled", True)),
                     "createDelay": to_wire(p["createDelay"]),
                     "createView": to_wire(create_view(p))},
@@ -495,9 +603,12 @@ class Prepared:
         self.prep = prep
         self.fn = None
 
-    def run_passes(self, stored, steps, faults=None):
+    def run_passes(self, stored, steps, faults=None, programs=None):
         """`steps`: list of callables (cluster object or None) -> new cluster object or None, applied to
-        the stored object *before* each pass.  Returns one observation per pass."""
+        the stored object *before* each pass.  Returns one observation per pass.
+        `faults[i]`: a fault for pass i — a plain value hits the GET (first call of the pass); a map
+        `{"at": n, "fault": f}` hits the pass's n-th call (n = 1: the POST / PATCH / DELETE after the GET).
+        `programs[i]`: the program whose *inputs* pass i runs with (same function, another materialised target)."""
         import celpy
 
         import cluster as clmod
@@ -530,12 +641,18 @@ class Prepared:
                 n0 = len(c.log)
                 fault = (faults or {}).get(len(obs), (faults or {}).get(str(len(obs))))
                 c.faults.clear()
-                if fault is not None:          # the GET is the first API call of a pass
+                wfault = None
+                if isinstance(fault, dict):    # a fault at a later call of the pass (the write)
+                    wfault, fault = fault, None
+                    c.faults[c.calls + int(wfault.get("at", 1))] = wfault["fault"]
+                elif fault is not None:        # the GET is the first API call of a pass
                     c.faults[c.calls] = fault
+                pp = programs[len(obs)] if programs is not None and len(obs) < len(programs) and \
+                    programs[len(obs)] is not None else p
                 try:
                     res = await reconcile_resource_function(
-                        api=c, location="t", function=fn, owner=(NS, copy.deepcopy(ku.OWNER_REF)),
-                        inputs=celpy.json_to_cel(p["inputs"]))
+                        api=c, location="t", function=fn, owner=(parent_ns(p), copy.deepcopy(ku.OWNER_REF)),
+                        inputs=celpy.json_to_cel(pp["inputs"]))
                     o = ku.outcome_obs(res.outcome)
                     out = {"c": o["c"]}
                     if o["c"] == "retry":
@@ -544,8 +661,10 @@ class Prepared:
                     out = {"c": "raised", "exc": type(e).__name__}
                 reqs = [{"m": e["method"], "b": e["body"]} for e in c.mutations(n0)]
                 c.faults.clear()
+                if wfault is not None and not any(e.get("fault") is not None for e in c.log[n0:]):
+                    wfault = None              # the pass made no such call: an ordinary pass
                 obs.append({"before": before, "o": out, "reqs": reqs, "after": copy.deepcopy(c.get(*KEY)),
-                            "fault": fault})
+                            "fault": fault, "wfault": wfault, "p": pp})
             return obs
 
         return ku.run(go())
@@ -814,19 +933,23 @@ def update_phase(ck, drv):
 GET_FAULTS = [400, 401, 403, 429, 500, 503, "raise-before", "no-response"]
 
 
-def run_scenario(ck, drv, p, stored, steps, relation="pass-observables", faults=None):
+def run_scenario(ck, drv, p, stored, steps, relation="pass-observables", faults=None, programs=None):
     """run the passes on the implementation, ask the model for each pass's possible results,
     record disagreements; returns (observations, abstractions) or None when prepare failed"""
     pr = Prepared(p)
-    obs = pr.run_passes(stored, steps, faults)
+    obs = pr.run_passes(stored, steps, faults, programs)
     if obs and "prepare" in obs[0]:
         ck.count("e2e:prepare-failed")
         ck.notes.append(f"prepare failed: {obs[0]['prepare'].get('msg')}"[:300]) if len(ck.notes) < 5 else None
         return None
     reqs, usable = [], []
     for o in obs:
-        usable.append(True)          # the owner-reference branch is the model's own prediction now
-        req = pass_req(p, o["before"])
+        # a pass whose write was answered with an error / raised in flight: the model's pass is the fault-free
+        # one; what is compared is the pass *after* it (the model has no state besides the cluster)
+        usable.append(o.get("wfault") is None)
+        if o.get("wfault") is not None:
+            ck.count(f"e2e:write-fault:{o['wfault']['fault']}:{'+'.join(q['m'] for q in o['reqs']) or 'none'}")
+        req = pass_req(o["p"], o["before"])
         if o.get("fault") is not None:
             req["loadFault"] = True
             ck.count(f"e2e:get-fault:{o['fault']}")
@@ -843,10 +966,10 @@ def run_scenario(ck, drv, p, stored, steps, relation="pass-observables", faults=
         abstr.append(ia)
         ck.evaluated()
         ck.count(f"e2e:{p['policy']}:{ia['o']['c']}:{'+'.join(q['m'] for q in ia['reqs']) or 'none'}")
-        if u and ans is not None:
-            ms = model_abstract(next(ans)["rs"])
+        ms = model_abstract(next(ans)["rs"]) if ans is not None else None
+        if u and ms is not None:
             if ia not in ms:
-                ck.disagree({"kind": "e2e", "p": p, "befores": [o["before"]],
+                ck.disagree({"kind": "e2e", "p": o["p"], "befores": [o["before"]],
                              "faults": {"0": o["fault"]} if o.get("fault") is not None else {}}, ms, ia, relation)
         # the codec hypothesis of the theorems, on what koreo really wrote
         for q in o["reqs"]:
